@@ -42,6 +42,9 @@ type WFile struct {
 	Name      string
 	ExtPlain  []string `json:",omitempty"` // ext package keys this file imports WITHOUT alias (same-name packages in different files)
 	Tag       bool     // //go:build wireinject
+	LegacyTag bool     `json:",omitempty"` // additionally the old "// +build wireinject" line
+	WireAlias string   `json:",omitempty"` // google/wire is imported under this name
+	VarBlock  bool     `json:",omitempty"` // the sets of the file are declared in one var ( ... ) block
 	Sets      []WSet
 	Injectors []WInjector
 }
@@ -82,7 +85,7 @@ type WOpts struct {
 }
 
 var WireFeatures = []string{"bind", "bind-value-impl", "value", "ivalue", "struct", "struct-fields", "struct-value-consumer", "fieldsof", "fieldsof-value", "fieldsof-ptr",
-	"sets", "nested-sets", "inline-sets", "inline-sets-deep", "struct-unexported-field", "ext-alias-suffix", "ext-name-differs-from-path", "composite", "same-name-packages-across-files", "fieldsof-twice", "second-injector", "twin-types-in-same-named-packages", "value-ext-var", "build-in-panic", "value-ext-nested-selector", "decoy-constructor-in-migrated-package", "struct-in-ext-package", "fieldsof-in-ext-package", "err", "args", "unused-arg", "multi-file", "ext", "bind-foreign-ctor", "bind-split-set", "multi-result"}
+	"sets", "nested-sets", "inline-sets", "inline-sets-deep", "struct-unexported-field", "ext-alias-suffix", "ext-name-differs-from-path", "composite", "same-name-packages-across-files", "fieldsof-twice", "second-injector", "twin-types-in-same-named-packages", "value-ext-var", "build-in-panic", "wire-import-alias", "wire-legacy-build-tag", "wire-sets-in-var-block", "value-ext-nested-selector", "decoy-constructor-in-migrated-package", "struct-in-ext-package", "fieldsof-in-ext-package", "err", "args", "unused-arg", "multi-file", "ext", "bind-foreign-ctor", "bind-split-set", "multi-result"}
 
 func WAllowAll(except ...string) map[string]bool {
 	m := map[string]bool{}
@@ -818,9 +821,22 @@ func (g *wgen) assemble() {
 		nFiles = 2
 		w.AddFeature("multi-file")
 	}
+	spelling := func(f *WFile, label string) {
+		if g.want("wire-import-alias", label+"-alias", 12) {
+			f.WireAlias = "gw"
+		}
+		if f.Tag && g.want("wire-legacy-build-tag", label+"-legacytag", 20) {
+			f.LegacyTag = true
+		}
+		if g.want("wire-sets-in-var-block", label+"-varblock", 20) {
+			f.VarBlock = true
+		}
+	}
 	w.Files = append(w.Files, WFile{Name: "wire.go", Tag: true})
+	spelling(&w.Files[0], "f0")
 	if nFiles == 2 {
 		w.Files = append(w.Files, WFile{Name: "wire_sets.go", Tag: rapid.Bool().Draw(g.rt, "tag2")})
+		spelling(&w.Files[1], "f1")
 		if sameName {
 			w.Files[1].ExtPlain = []string{"ext2"}
 		}
